@@ -17,10 +17,17 @@ def main(argv=None):
         rule='seeded random programs (6-36 ops + final reads) over 4-7 objects (mapping/list/custom class) on '
              'mapping, file and demo storage: modify, link/unlink (implicit add by reachability), conn.add, read, '
              'commit, abort, commit failing at every phase (second resource manager before/after the connection '
-             'in tpc_begin/commit/tpc_vote/tpc_finish, fault of the j-th store, fault of tpc_vote, conflict with a '
-             'commit of a second connection), close/reopen; non-trivial = a commit or savepoint found a new object '
+             'in tpc_begin/commit/tpc_vote/tpc_finish, fault of the j-th store, fault of tpc_vote, the state of object k '
+             'failing to pickle, conflict with a commit of a second connection), close/reopen; every tenth case is a '
+             'structured pickling-failure scenario (registered container / middle of the writer stack / last '
+             'object, then re-link, commit, read elsewhere); plus 60 (thorough: 1500) programs of the '
+             'multi-database family (two databases, primary+secondary connection: modify either, close the '
+             'primary, reopen from the pool, commit, abort, reads through an independent pair; oracle only); non-trivial = a commit or savepoint found a new object '
              'by reachability and some commit failed or a joined transaction was aborted; distinct by hash of the case',
-        assumptions=['resolving a persistent reference through the pickle cache yields the object that was pickled '
+        assumptions=['the multi-database family is judged by the oracle alone (the Lean model has one database): '
+                     'close succeeds exactly when no connection of the group is joined, a refused close has no '
+                     'effect, a reopened pair shows committed state only',
+                     'resolving a persistent reference through the pickle cache yields the object that was pickled '
                      '(idealised in the model, exercised by the run; C14 is about reference round trips)',
                      'the second connection only commits payload changes of committed objects',
                      'finding C11:new-object-keeps-oid-after-failed-store is fixed (the model is of the repaired '
